@@ -6,6 +6,7 @@
 package main
 
 import (
+	"bufio"
 	"bytes"
 	"encoding/hex"
 	"fmt"
@@ -21,6 +22,7 @@ import (
 	"strings"
 	"sync"
 	"time"
+	"unicode/utf8"
 
 	"github.com/fabiolb/fabio/logger"
 	"github.com/fabiolb/fabio/proxy"
@@ -468,6 +470,9 @@ func formatOf(toks []token) string {
 }
 
 func refLine(toks []token, e *logger.Event) (string, bool) {
+	if !utf8.ValidString(formatOf(toks)) {
+		return "", false // the literal text goes through []rune and back: only the model says what comes out
+	}
 	var sb strings.Builder
 	for _, t := range toks {
 		if t.field != "" {
@@ -487,6 +492,11 @@ func refLine(toks []token, e *logger.Event) (string, bool) {
 	return sb.String(), true
 }
 
+// text that may stand DIRECTLY after a field name: it starts with something the lexer's
+// ASCII identifier test rejects, which includes every non-ASCII letter and digit
+var utf8Texts = []string{"秒", "耗时:", "状态:", "øctets", "é", "ñ=", "٣", "٠١٢", "५", "😀", "\u0301x", "—", "™ ", "Ωmega", "日本語 ", "ß", "ǅ", "ⅷ", "²", "\u00a0",
+	"\xff", "\xc3(", "\xe2\x82", "\xed\xa0\x80", "\xf4\x90\x80\x80", "\xc0\xaf", "é\xfe"}
+
 var seps = []string{" ", " - ", " [", "] ", "\"", "\" \"", "|", "/", " took ", ":", "=", ", ", " (", ") ", " . ", ".", "\t", " #", "; x=", "%"}
 
 func genTokens(r *rand.Rand, pool []string) []token {
@@ -496,6 +506,12 @@ func genTokens(r *rand.Rand, pool []string) []token {
 	for i := 0; i < n; i++ {
 		if r.Intn(3) == 0 || (prevField && r.Intn(4) != 0) {
 			s := pick(r, seps)
+			if r.Intn(4) == 0 {
+				s = pick(r, utf8Texts)
+				if r.Intn(2) == 0 {
+					s += pick(r, utf8Texts)
+				}
+			}
 			if !prevField && r.Intn(3) == 0 {
 				s = pick(r, []string{"text", "GET", "a.b", "x-y_z", "0"}) + s
 			}
@@ -679,8 +695,9 @@ func main() {
 	// 6. malformed / quirky formats: only the model decides what they mean
 	quirks := []string{"", "$", "$$", "$ ", "$$remote_addr", "$header", "$header.", "$header..a", "$header.$x", "$header.a b", "$header.a.b",
 		"$remote_addr.x", "$remote_addrx", "$remote_addr-", "$unknown", "text only", "a$", "a$b", "$request_url_", "$header.a$header.b",
-		"$header.User-Agent.", "${remote_addr}", "$remote_addr$", "x $time_common$", "$Header.a", "$headers.a", "$header.-", ".$header.a", "$.", "$header.a$", "$header.a.", "\n", "$remote_addr\n"}
-	alphabet := []string{"$", "$", ".", "-", "_", " ", "a", "header", "$header", "$header.", "$remote_addr", "$request", "x", "{", "}", "$time_common", "$upstream_host", "Z9"}
+		"$header.User-Agent.", "${remote_addr}", "$remote_addr秒", "$response_status耗时", "$header.aé", "$header.User-Agent秒x", "$é", "é$x", "\xff$", "$\xff", "$header.٣",
+		"$header.a٣b", "$remote_addrø", "$request_uri\u0301", "状态:$response_status耗时:$response_time_ms秒", "$header.X-Idé $request", "$ǅ", "$remote_addr\xe2\x82$request", "$remote_addr$", "x $time_common$", "$Header.a", "$headers.a", "$header.-", ".$header.a", "$.", "$header.a$", "$header.a.", "\n", "$remote_addr\n"}
+	alphabet := []string{"$", "$", ".", "-", "_", " ", "a", "header", "$header", "$header.", "$remote_addr", "$request", "x", "{", "}", "$time_common", "$upstream_host", "Z9", "é", "秒", "٣", "\xff", "😀"}
 	for i := 0; i < run.Scale(220, 3000); i++ {
 		var f string
 		if i < len(quirks) {
@@ -776,6 +793,28 @@ func main() {
 		}
 	}
 	time.Local = savedLocal
+
+	// 7b. formats written in languages without spaces: UTF-8 text directly around every field
+	for i := 0; i < run.Scale(150, 3000); i++ {
+		var toks []token
+		for k := 1 + r.Intn(4); k > 0; k-- {
+			if r.Intn(3) != 0 {
+				toks = append(toks, token{text: pick(r, utf8Texts)})
+			}
+			f := pick(r, fieldNames)
+			if r.Intn(3) == 0 {
+				f = "$header." + pick(r, headerNames)
+			}
+			toks = append(toks, token{field: f})
+			if r.Intn(3) != 0 {
+				toks = append(toks, token{text: pick(r, utf8Texts) + pick(r, []string{"", "", " ", "x", "9"})})
+			}
+		}
+		addLog("utf8-format", formatOf(toks), toks, genEvent(r, true, true))
+	}
+	// 7c. end to end over real sockets: the upstream sends 0-2 informational responses before
+	// the final one; the logged status / size must be what the client received
+	oneXX(run, r)
 
 	// 8. concurrent logging through one logger and the shared buffer pool: every line intact, once
 	{
@@ -979,3 +1018,149 @@ func main() {
 type writerFunc func(p []byte) (int, error)
 
 func (f writerFunc) Write(p []byte) (int, error) { return f(p) }
+
+// ---------- loopback upstream that answers with a scripted byte sequence ----------
+type scriptedUpstream struct {
+	ln     net.Listener
+	mu     sync.Mutex
+	script []byte
+}
+
+func (u *scriptedUpstream) serve() {
+	for {
+		c, err := u.ln.Accept()
+		if err != nil {
+			return
+		}
+		go func(c net.Conn) {
+			defer c.Close()
+			br := bufio.NewReader(c)
+			for {
+				line, err := br.ReadString('\n')
+				if err != nil {
+					return
+				}
+				if line == "\r\n" {
+					break
+				}
+			}
+			u.mu.Lock()
+			s := u.script
+			u.mu.Unlock()
+			c.Write(s)
+		}(c)
+	}
+}
+
+// recRW sits between net/http's ResponseWriter and fabio's wrapper and records the calls
+type recRW struct {
+	w     http.ResponseWriter
+	calls *[]string
+}
+
+func (w *recRW) Header() http.Header { return w.w.Header() }
+func (w *recRW) WriteHeader(c int) {
+	*w.calls = append(*w.calls, vh.App("RwHeader", vh.Z(int64(c))))
+	w.w.WriteHeader(c)
+}
+func (w *recRW) Write(b []byte) (int, error) {
+	n, err := w.w.Write(b)
+	*w.calls = append(*w.calls, vh.App("RwWrite", vh.Z(int64(n))))
+	return n, err
+}
+func (w *recRW) Flush() {
+	if f, ok := w.w.(http.Flusher); ok {
+		f.Flush()
+	}
+}
+
+func oneXX(run *vh.Run, r *rand.Rand) {
+	ln, err := net.Listen("tcp", "127.0.0.1:0")
+	if err != nil {
+		run.Exclude("cannot listen on loopback")
+		return
+	}
+	up := &scriptedUpstream{ln: ln}
+	go up.serve()
+	defer ln.Close()
+	toks := tokensOf("$response_status $response_body_size \"$request\" $upstream_addr")
+	format := formatOf(toks)
+	c := getLogger(format)
+	rec := &recLogger{inner: c.l}
+	tu, _ := url.Parse("http://" + ln.Addr().String() + "/")
+	var times []time.Time
+	p := &proxy.HTTPProxy{
+		Transport: &http.Transport{DisableKeepAlives: true},
+		Lookup:    func(*http.Request) *route.Target { return &route.Target{Service: "svc-1xx", URL: tu} },
+		Logger:    rec,
+		Time:      func() time.Time { t := times[0]; times = times[1:]; return t },
+	}
+	var calls []string
+	done := make(chan bool, 1)
+	front := httptest.NewServer(http.HandlerFunc(func(w http.ResponseWriter, q *http.Request) {
+		panicked, _ := vh.Recover(func() { p.ServeHTTP(&recRW{w, &calls}, q) })
+		done <- panicked
+	}))
+	defer front.Close()
+	client := &http.Client{Transport: &http.Transport{DisableKeepAlives: true}, CheckRedirect: func(*http.Request, []*http.Request) error { return http.ErrUseLastResponse }}
+	finals := []int{200, 201, 202, 204, 301, 304, 404, 500, 503}
+	for i := 0; i < run.Scale(72, 900); i++ {
+		final := finals[(i/3)%len(finals)]
+		body := randText(r, r.Intn(300))
+		method := pick(r, []string{"GET", "GET", "DELETE", "HEAD"})
+		var sb strings.Builder
+		nInfo := i % 3
+		for k := 0; k < nInfo; k++ {
+			code := []int{103, 103, 102}[r.Intn(3)]
+			fmt.Fprintf(&sb, "HTTP/1.1 %d Info\r\nLink: </style%d.css>; rel=preload; as=style\r\n\r\n", code, r.Intn(100))
+		}
+		if final == 204 || final == 304 {
+			body = ""
+			fmt.Fprintf(&sb, "HTTP/1.1 %d Final\r\nConnection: close\r\n\r\n", final)
+		} else {
+			fmt.Fprintf(&sb, "HTTP/1.1 %d Final\r\nContent-Type: text/plain\r\nContent-Length: %d\r\nConnection: close\r\n\r\n", final, len(body))
+			if method != "HEAD" {
+				sb.WriteString(body)
+			}
+		}
+		up.mu.Lock()
+		up.script = []byte(sb.String())
+		up.mu.Unlock()
+		t0 := genTime(r, true)
+		times = []time.Time{t0, t0.Add(time.Duration(r.Intn(5000000)))}
+		calls, rec.ev = nil, nil
+		c.w.buf.Reset()
+		c.w.n = 0
+		req, _ := http.NewRequest(method, front.URL+pick(r, []string{"/", "/hints", "/a/b?x=1"}), nil)
+		resp, err := client.Do(req)
+		if err != nil {
+			run.Violation(run.NextID(), "loopback 1xx: no response reached the client: "+err.Error(), sb.String())
+			<-done
+			continue
+		}
+		got, _ := io.ReadAll(resp.Body)
+		resp.Body.Close()
+		panicked := <-done
+		if rec.ev == nil || rec.ev.Response == nil {
+			run.Violation(run.NextID(), "loopback 1xx: the request was proxied but not logged", map[string]interface{}{"final": final, "infos": nInfo})
+			continue
+		}
+		sample := map[string]interface{}{"fn": "HTTPProxy.ServeHTTP over loopback sockets", "method": method, "upstream_1xx": nInfo, "upstream_final": final,
+			"client_status": resp.StatusCode, "client_body_bytes": len(got), "logged_status": rec.ev.Response.StatusCode, "logged_size": rec.ev.Response.ContentLength, "rw_calls": len(calls)}
+		run.Add("servehttp-loopback-1xx", vh.App("CRw", vh.List(calls), vh.Z(int64(rec.ev.Response.StatusCode)), vh.Z(rec.ev.Response.ContentLength),
+			vh.Z(int64(resp.StatusCode)), vh.Z(int64(len(got)))), sample)
+		// the line, against the rendering of what the client saw
+		want := *rec.ev
+		want.Response = &http.Response{StatusCode: resp.StatusCode, ContentLength: int64(len(got))}
+		impl, human := vh.Ok(vh.Hx(c.w.buf.Bytes())), c.w.buf.String()
+		if panicked {
+			impl, human = vh.Panic, "panic"
+		}
+		ref, refHuman := vh.None, "(none)"
+		if s, ok := refLine(toks, &want); ok {
+			ref, refHuman = vh.Some(vh.HxS(s)), s
+		}
+		sample2 := map[string]interface{}{"fn": "HTTPProxy.ServeHTTP over loopback sockets", "format": format, "impl": human, "ref": refHuman, "upstream_1xx": nInfo}
+		run.Add("servehttp-loopback-1xx-line", vh.App("CLog", vh.HxS(format), coqEvent(rec.ev), impl, vh.N(c.w.n), ref), sample2)
+	}
+}
